@@ -10,6 +10,7 @@ import (
 	"runtime/debug"
 	"sort"
 	"syscall"
+	"time"
 	"unsafe"
 
 	spg "go.1password.io/spg"
@@ -170,17 +171,22 @@ func allocCounters32(n uint32) ([]uint32, func()) {
 type sweepReader struct {
 	cur   uint32
 	state int
+	acc   uint32 // a word the draw was observed to accept at once: what follows a rejected first word
 }
 
 func (s *sweepReader) Read(b []byte) (int, error) {
-	if len(b) != 4 {
-		return 0, tape.ErrExtraRead
-	}
 	switch {
-	case s.state == 0:
+	case s.state == 0 && len(b) == 4:
 		binary.BigEndian.PutUint32(b, s.cur)
-	case s.state <= 2:
-		binary.BigEndian.PutUint32(b, 0)
+	case s.state >= 1 && s.state <= 2 && len(b) >= 4 && len(b)%4 == 0 && len(b) <= 256:
+		// the redraw after a rejected first word: accepted words, as many at a time as the draw asks for
+		for i := 0; i+4 <= len(b); i += 4 {
+			binary.BigEndian.PutUint32(b[i:], s.acc)
+		}
+		s.state++
+		return len(b), nil
+	case len(b) != 4:
+		return 0, tape.ErrExtraRead
 	default:
 		return 0, tape.ErrExhausted
 	}
@@ -193,6 +199,9 @@ func (s *sweepReader) Read(b []byte) (int, error) {
 // words and, if the draw misbehaved, a description.
 func sweep(n uint32, lo, hi uint64, count func(res uint32)) (accepted, rejected uint64, bad string, badWord uint32) {
 	sr := &sweepReader{}
+	if a, ok := tape.AcceptedWordFor(n); ok {
+		sr.acc = a
+	}
 	defer debug.SetGCPercent(debug.SetGCPercent(3000)) // the draw allocates 4 bytes per call; collect less often
 	save := rand.Reader
 	rand.Reader = sr
@@ -452,6 +461,7 @@ func c01ScoutBounds(tier string, seed uint64, k, of int) []uint32 {
 
 func c01Scout(c *Ctx, k, of int) {
 	escalated := false
+	stalls := 0
 	for _, n := range c01ScoutBounds(c.Tier, c.Seed, k, of) {
 		c.Distinct("scouted", fmt.Sprint(n))
 		if n >= 2 {
@@ -468,13 +478,18 @@ func c01Scout(c *Ctx, k, of int) {
 		}
 		var rejectedWord int64 = -1
 		suspicious := ""
+		fill, okFill := tape.AcceptedWordFor(n) // what follows a rejected word in these probes: a word accepted at once
+		if !okFill {
+			c.Violate("draw-misbehaves", fmt.Sprintf("n=%d: none of ten spread-out raw words is accepted at once (more than half of all words must be)", n), map[string]interface{}{"n": n})
+			return
+		}
 		for _, w64 := range words {
 			if w64 > 0xFFFFFFFF {
 				continue
 			}
 			w := uint32(w64)
-			res, reads, pan := tape.Observe(n, w, 0, 0)
-			res2, reads2, pan2 := tape.Observe(n, w, 0, 0)
+			res, reads, pan := tape.Observe(n, w, fill, fill, fill, fill, fill, fill, fill, fill)
+			res2, reads2, pan2 := tape.Observe(n, w, fill, fill, fill, fill, fill, fill, fill, fill)
 			c.Exec(2)
 			if pan || pan2 {
 				c.Violate("draw-misbehaves", fmt.Sprintf("n=%d word %#08x: bounded draw panicked", n, w), map[string]interface{}{"n": n, "word": w})
@@ -516,14 +531,15 @@ func c01Scout(c *Ctx, k, of int) {
 				if j == 0 {
 					w = 0
 				}
-				r1, reads1, p1 := tape.Observe(n, w, 0, 0)
+				r1, reads1, p1 := tape.Observe(n, w, fill, fill, fill, fill, fill, fill, fill, fill)
 				if p1 || reads1 != 1 {
 					continue
 				}
-				r2, reads2, p2 := tape.Observe(n, uint32(rejectedWord), w, 0, 0)
+				r2, reads2, p2 := tape.Observe(n, uint32(rejectedWord), w, fill, fill, fill, fill, fill, fill, fill)
 				c.Exec(2)
 				c.Count("continuations_checked", 1)
-				if p2 || reads2 != 2 || r2 != r1 {
+				_ = reads2 // how many reads a redraw takes is the implementation's business (it may fetch several words at a time)
+				if p2 || r2 != r1 {
 					c.Violate("redraw-not-fresh", fmt.Sprintf("n=%d: after rejected word %#08x the next word %#08x gave %d after %d reads (panic=%v); alone it gives %d after one read", n, uint32(rejectedWord), w, r2, reads2, p2, r1),
 						map[string]interface{}{"n": n, "rejected": rejectedWord, "word": w})
 					return
@@ -534,16 +550,31 @@ func c01Scout(c *Ctx, k, of int) {
 					for x := 0; x < k; x++ {
 						words = append(words, uint32(rejectedWord))
 					}
-					words = append(words, w, 0, 0)
+					words = append(words, w, fill, fill, fill, fill, fill, fill, fill)
 					rk, readsk, pk := tape.Observe(n, words...)
 					c.Exec(1)
 					c.Count("multi_rejection_continuations_checked", 1)
-					if pk || readsk != k+1 || rk != r1 {
+					if pk || rk != r1 {
 						c.Violate("redraw-not-fresh", fmt.Sprintf("n=%d: after %d rejected words (%#08x each) the next word %#08x gave %d after %d reads (panic=%v); alone it gives %d after one read", n, k, uint32(rejectedWord), w, rk, readsk, pk, r1),
 							map[string]interface{}{"n": n, "rejected": rejectedWord, "rejected_in_a_row": k, "word": w})
 						return
 					}
 				}
+			}
+		}
+		// a source that blocks for a while (early boot, a starved container) is still the same source: the
+		// rejected word must be redrawn however long the reads took
+		if rejectedWord >= 0 && k%8 == 0 && stalls < 2 {
+			stalls++
+			at := 1 + stalls%2
+			r1, reads1, p1 := tape.Observe(n, uint32(rejectedWord), fill, fill, fill, fill, fill, fill, fill, fill)
+			r2, reads2, p2 := tape.ObserveStalled(n, at, 300*time.Millisecond, uint32(rejectedWord), fill, fill, fill, fill, fill, fill, fill, fill)
+			c.Exec(2)
+			c.Count("stalled_source_draws_checked", 1)
+			if p1 != p2 || r1 != r2 || reads1 != reads2 {
+				c.Violate("draw-depends-on-how-long-the-source-took", fmt.Sprintf("n=%d: rejected word %#08x then %#08x gives %d after %d reads; with the source blocking 300 ms at read %d it gives %d after %d reads (panic=%v)", n, uint32(rejectedWord), fill, r1, reads1, at, r2, reads2, p2),
+					map[string]interface{}{"n": n, "rejected": rejectedWord, "stalled_read": at})
+				return
 			}
 		}
 		// the raw word is 4 bytes however the source chunks them: delivered in pieces of 1-3 bytes the draw
@@ -580,8 +611,8 @@ func c01Scout(c *Ctx, k, of int) {
 						continue
 					}
 					w := uint32(w64)
-					r0, reads0, p0 := tape.Observe(n, w, 5, 5, 5)
-					r1, reads1, p1 := tape.ObserveInterposed(n, innerN, uint32(c.R.U32()), w, 5, 5, 5)
+					r0, reads0, p0 := tape.Observe(n, w, fill, fill, fill)
+					r1, reads1, p1 := tape.ObserveInterposed(n, innerN, uint32(c.R.U32()), w, fill, fill, fill)
 					c.Exec(2)
 					c.Count("interposed_draws_checked", 1)
 					if p0 != p1 || r0 != r1 || reads0 != reads1 {
